@@ -316,6 +316,8 @@ func c01(c *Ctx) {
 			}
 		}
 	}
+	// the function patched by name is the one the caller designated (shared with C06.R4)
+	checkExactNameDerivation(p, r, "C01.R4")
 	// ---- R5 layout mirrors (both architectures)
 	checkLayouts(p, r, "C01.R5")
 	if k2, err := c.K2(); err == nil {
